@@ -64,19 +64,22 @@ async fn asynchronous(worterbuch: &CloneableWbApi, config: &Config) -> Persisten
         last_persisted,
     ) = file_paths(config, true).await?;
 
-    let json = json.to_string();
-    write_and_check(json.as_bytes(), &store_path, &store_path_checksum).await?;
-
-    let json = serde_json::to_string(&GraveGoodsLastWill {
+    // the store file is written last: a slot whose store validates is complete
+    let gglw_json = serde_json::to_string(&GraveGoodsLastWill {
         grave_goods,
         last_will,
     })?;
     write_and_check(
-        json.as_bytes(),
+        gglw_json.as_bytes(),
         &grave_goods_last_will_path,
         &grave_goods_last_will_path_checksum,
     )
     .await?;
+
+    let json = json.to_string();
+    write_and_check(json.as_bytes(), &store_path, &store_path_checksum).await?;
+
+    select_slot(config, &store_path).await?;
 
     File::create(&last_persisted).await?;
     #[cfg(feature = "verif")]
@@ -106,19 +109,22 @@ pub(crate) async fn synchronous(
     let (data, grave_goods, last_will) = worterbuch.export();
     debug!("Exporting database state done.");
 
-    let json = json!({ "data": data }).to_string();
-    write_and_check(json.as_bytes(), &store_path, &store_path_checksum).await?;
-
-    let json = serde_json::to_string(&GraveGoodsLastWill {
+    // the store file is written last: a slot whose store validates is complete
+    let gglw_json = serde_json::to_string(&GraveGoodsLastWill {
         grave_goods,
         last_will,
     })?;
     write_and_check(
-        json.as_bytes(),
+        gglw_json.as_bytes(),
         &grave_goods_last_will_path,
         &grave_goods_last_will_path_checksum,
     )
     .await?;
+
+    let json = json!({ "data": data }).to_string();
+    write_and_check(json.as_bytes(), &store_path, &store_path_checksum).await?;
+
+    select_slot(config, &store_path).await?;
 
     File::create(&last_persisted).await?;
     #[cfg(feature = "verif")]
@@ -208,50 +214,47 @@ pub async fn load(config: &Config) -> PersistenceResult<Worterbuch> {
         _,
     ) = file_paths(config, false).await?;
 
-    let mut wb = match try_load(&store_path, &store_path_checksum, config).await {
-        Ok(worterbuch) => Ok(worterbuch),
-        Err(e) => {
-            warn!(
-                "Could not load persistence file {}: {e}",
-                store_path.to_string_lossy()
-            );
-            let (store_path, store_path_checksum, _, _, _) = file_paths(config, true).await?;
-            info!(
-                "Trying to load persistence file {} …",
-                store_path.to_string_lossy()
-            );
-            try_load(&store_path, &store_path_checksum, config).await
-        }
-    }?;
+    // registrations are always taken from the slot the store was loaded from
+    let (mut wb, grave_goods_last_will_path, grave_goods_last_will_path_checksum) =
+        match try_load(&store_path, &store_path_checksum, config).await {
+            Ok(worterbuch) => (
+                worterbuch,
+                grave_goods_last_will_path,
+                grave_goods_last_will_path_checksum,
+            ),
+            Err(e) => {
+                warn!(
+                    "Could not load persistence file {}: {e}",
+                    store_path.to_string_lossy()
+                );
+                let (store_path, store_path_checksum, gglw_path, gglw_path_checksum, _) =
+                    file_paths(config, true).await?;
+                info!(
+                    "Trying to load persistence file {} …",
+                    store_path.to_string_lossy()
+                );
+                let worterbuch = try_load(&store_path, &store_path_checksum, config).await?;
+                // the other slot is the good one: select it, so the next flush does not overwrite it
+                select_slot(config, &store_path).await?;
+                (worterbuch, gglw_path, gglw_path_checksum)
+            }
+        };
 
-    if let Ok(grave_goods_last_will) = match try_load_grave_goods_last_will(
+    match try_load_grave_goods_last_will(
         &grave_goods_last_will_path,
         &grave_goods_last_will_path_checksum,
     )
     .await
     {
-        Ok(gglw) => Ok(gglw),
-        Err(e) => {
-            warn!(
-                "Could not load persistence file {}: {e}",
-                grave_goods_last_will_path.to_string_lossy()
-            );
-            let (_, _, grave_goods_last_will_path, grave_goods_last_will_path_checksum, _) =
-                file_paths(config, true).await?;
-            info!(
-                "Trying to load persistence file {} …",
-                grave_goods_last_will_path.to_string_lossy()
-            );
-            try_load_grave_goods_last_will(
-                &grave_goods_last_will_path,
-                &grave_goods_last_will_path_checksum,
-            )
-            .await
+        Ok(grave_goods_last_will) => {
+            wb.apply_grave_goods(grave_goods_last_will.grave_goods)
+                .await;
+            wb.apply_last_wills(grave_goods_last_will.last_will).await;
         }
-    } {
-        wb.apply_grave_goods(grave_goods_last_will.grave_goods)
-            .await;
-        wb.apply_last_wills(grave_goods_last_will.last_will).await;
+        Err(e) => warn!(
+            "Could not load persistence file {}: {e}",
+            grave_goods_last_will_path.to_string_lossy()
+        ),
     }
 
     Ok(wb)
@@ -344,40 +347,51 @@ pub(crate) async fn file_paths(
     ))
 }
 
+/// Which slot do the returned paths point to? For reading: the selected slot (`.toggle`
+/// present -> a, absent -> b). For writing: the other one. The selector itself is not
+/// touched here; it is moved by `select_slot` once a slot has been written completely, so a
+/// crash in the middle of a flush leaves the selected slot intact.
 #[instrument(level=Level::DEBUG, ret, err)]
 async fn toggle_alternating_files(path: &Path, write: bool) -> PersistenceResult<bool> {
+    let selected = File::open(path).await.is_ok();
     if write {
-        if remove_file(path).await.is_ok() {
-            #[cfg(feature = "verif")]
-            crate::verif::fs_step("toggle-remove");
-            debug!(
-                "toggle file {} removed, writing to backup",
-                path.to_string_lossy()
-            );
-            Ok(false)
-        } else {
-            File::create(path).await?;
-            #[cfg(feature = "verif")]
-            crate::verif::fs_step("toggle-create");
-            debug!(
-                "toggle file {} created, writing to main",
-                path.to_string_lossy()
-            );
-            Ok(true)
-        }
-    } else if File::open(path).await.is_ok() {
+        #[cfg(feature = "verif")]
+        crate::verif::fs_step("pick-idle-slot");
         debug!(
-            "toggle file {} exists, reading from main",
-            path.to_string_lossy()
+            "toggle file {} {}, writing to {}",
+            path.to_string_lossy(),
+            if selected { "exists" } else { "does not exist" },
+            if selected { "backup" } else { "main" }
         );
-        Ok(true)
+        Ok(!selected)
     } else {
         debug!(
-            "toggle file {} does not exists, reading from backup",
-            path.to_string_lossy()
+            "toggle file {} {}, reading from {}",
+            path.to_string_lossy(),
+            if selected { "exists" } else { "does not exist" },
+            if selected { "main" } else { "backup" }
         );
-        Ok(false)
+        Ok(selected)
     }
+}
+
+/// Make the slot `store_path` belongs to the selected one.
+#[instrument(level=Level::DEBUG, skip(config), err)]
+async fn select_slot(config: &Config, store_path: &Path) -> PersistenceResult<()> {
+    let mut toggle_path = PathBuf::from(&config.data_dir);
+    toggle_path.push(".toggle");
+    let main = store_path
+        .file_name()
+        .is_some_and(|name| name == "store.a.json");
+    if main {
+        File::create(&toggle_path).await?;
+        #[cfg(feature = "verif")]
+        crate::verif::fs_step("toggle-create");
+    } else if remove_file(&toggle_path).await.is_ok() {
+        #[cfg(feature = "verif")]
+        crate::verif::fs_step("toggle-remove");
+    }
+    Ok(())
 }
 
 #[instrument(level=Level::DEBUG, skip(data), ret)]
